@@ -15,10 +15,11 @@ Not decided: DuckDB date functions (DATE_DIFF, STRPTIME '%G-W%V', LAST_DAY …) 
 from __future__ import annotations
 
 import ast
+import datetime
 import re
 from typing import Any, Dict, List, Optional, Tuple
 
-from sa import sqlexpr, sqlx
+from sa import sqlconc, sqlexpr, sqlx
 from sa.core import AnalysisError, Finding, Program, Report, program, src
 
 TH = "vtlengine.DataTypes.TimeHandling"
@@ -278,6 +279,39 @@ def run(rep: Report, tier: str) -> None:
     _date_timeshift_table(P, rep)
     _time_agg_date_table(P, rep)
     _python_calendar_table(P, rep)
+    rep.rule("R08.10", "every accepted spelling of a Time_Period is stored as the canonical text (cumulative and fill operators order and match periods as text)")
+    from sa.checks.c21 import spelling_grid
+    spelling_grid(rep, "R08.10", macros, {k: int(v) for k, v in py_limits.items()})
+    # ---- R08.11 getyear of a Time_Period is the period's own year, for every indicator (the last ISO week of a year ends in January) ----
+    rep.rule("R08.11", "getyear(Time_Period) = the year of the period for every indicator, incl. week 52/53 whose Sunday falls in the next year (registry template evaluated)")
+    from sa import registryx as _rx
+    ytm = [e_ for e_ in _rx.extract(P) if e_.token_name == "YEAR" and e_.kind.startswith("typed") and "TimePeriod" in e_.kind]
+    if len(ytm) != 1:
+        raise AnalysisError(f"operator registry: expected one Time_Period override of getyear, found {len(ytm)}")
+    ytxt = list(ytm[0].templates.values())[0].format("x")
+    try:
+        yexpr = sqlexpr.parse(ytxt)
+    except sqlexpr.ParseError as ex:
+        raise AnalysisError(f"R08.11: getyear template outside the SQL evaluator's language: {ex}")
+    n11 = 0
+    shown11 = 0
+    for y_ in (2015, 2019, 2020, 2021, 2024, 2026):
+        nw = datetime.date(y_, 12, 28).isocalendar()[1]
+        for per in [f"{y_}A", f"{y_}-S1", f"{y_}-S2", f"{y_}-Q1", f"{y_}-Q4", f"{y_}-M01", f"{y_}-M12", f"{y_}-W01", f"{y_}-W52"] + ([f"{y_}-W53"] if nw == 53 else []) + [f"{y_}-D001", f"{y_}-D365"]:
+            try:
+                got = sqlconc.ev(yexpr, {"x": per}, macros)
+            except sqlconc.SqlError as ex:
+                got = f"<error {str(ex)[:40]}>"
+            except sqlexpr.ParseError as ex:
+                raise AnalysisError(f"R08.11: getyear template outside the SQL evaluator's language: {ex}")
+            n11 += 1
+            if got != y_ and shown11 < 4:
+                shown11 += 1
+                rep.add(Finding("R08.11", f"R08.11/getyear/{per}", "src/vtlengine/duckdb_transpiler/Transpiler/operators.py", ytm[0].line, "_create_default_registry",
+                                f"getyear of the period {per} evaluates to {got!r} (`{ytxt}`); the year of that period is {y_}"
+                                + (" - the last ISO week of a year ends in the following January" if "-W5" in per else "")))
+    rep.instance("R08.11", "getyear-grid", nontrivial=True, sample={"evaluated": n11, "template": ytxt})
+    rep.floor("R08.11 periods", n11, 60)
     from sa import intdiv
     rep.rule("R08.6", "time macros and generated time SQL: no `/` between integer-typed operands (DuckDB `/` is float division)")
     ndiv = intdiv.rule(rep, P, "R08.6", only_macros=None, skeleton_prefixes=("vtlengine.duckdb_transpiler",))
